@@ -110,13 +110,64 @@ def lastBrace : Bytes → Nat → Nat → Nat
   | c :: r, i, best => lastBrace r (i + 1) (if c == 125 && i ≥ 1 then i + 1 else best)
 
 /-- `\{.+\}`: `.` excludes newline; greedy, so up to the **last** `}` of the line; at least one byte inside -/
-def mTags (s : Bytes) : Nat :=
+def mTagsGreedy (s : Bytes) : Nat :=
   match s with
   | c :: r =>
     if c != 123 then 0 else
     let k := lastBrace (r.takeWhile (· != 10)) 0 0
     if k == 0 then 0 else k + 1
   | [] => 0
+
+/-! the quote-aware Tags pattern `\{(?:[^}"\n]|"(?:[^"\\\n]|\\.)*"|\}+[^\s}"])+\}+(?: *\})*` (proposed-fixes/F12a.diff): the
+elements are decided by their first byte (plain byte, `"…"` segment, `}`-run followed by a byte that continues a value), so
+the leftmost-longest match is the last valid end met by one left-to-right scan -/
+
+/-- after an opening `"`: the text after the closing `"` (`none` = unterminated on this line) -/
+def qaString : Nat → Bytes → Option Bytes
+  | 0, _ => none
+  | _+1, [] => none
+  | f+1, d :: r =>
+    if d == 34 then some r else if d == 10 then none
+    else if d == 92 then (match r with | e :: r' => if e == 10 then none else qaString f r' | [] => none)
+    else qaString f r
+
+/-- `(?: *\})*` -/
+def qaTail : Nat → Bytes → Nat
+  | 0, _ => 0
+  | f+1, s =>
+    let sp := (s.takeWhile (· == 32)).length
+    match s.drop sp with
+    | c :: r => if c == 125 then sp + 1 + qaTail f r else 0
+    | [] => 0
+
+/-- scan after `{`: `pos` bytes consumed so far, `cnt` elements so far, `best` = longest valid end so far (0 = none) -/
+def qaScan : Nat → Bytes → Nat → Nat → Nat → Nat
+  | 0, _, _, _, best => best
+  | _+1, [], _, _, best => best
+  | f+1, c :: r, pos, cnt, best =>
+    if c == 10 then best
+    else if c == 125 then
+      let k := (r.takeWhile (· == 125)).length + 1
+      let after := r.drop (k - 1)
+      let q := pos + k
+      let best' := if cnt ≥ 1 then q + qaTail (after.length + 1) after else best
+      match after with
+      | x :: r' => if isSpace x || x == 125 || x == 34 then best' else qaScan f r' (q + 1) (cnt + 1) best'
+      | [] => best'
+    else if c == 34 then
+      match qaString (r.length + 1) r with
+      | some r' => qaScan f r' (pos + 1 + (r.length - r'.length)) (cnt + 1) best
+      | none => best
+    else qaScan f r (pos + 1) (cnt + 1) best
+
+def mTagsQuoteAware (s : Bytes) : Nat :=
+  match s with
+  | c :: r => if c != 123 then 0 else qaScan (r.length + 1) r 1 0 0
+  | [] => 0
+
+/-- the Tags group as the extractor finds it in /repo now -/
+def mTags (s : Bytes) : Nat :=
+  if Logrange.Generated.C12.tagsQuoteAware then mTagsQuoteAware s else mTagsGreedy s
 
 /-- candidates in group order; `none` = the anonymous blank group -/
 def cands (s : Bytes) : List (Nat × Option TT) :=
